@@ -5,6 +5,7 @@ package modgen
 
 import (
 	"fmt"
+	"os"
 	"path/filepath"
 	"regexp"
 	"sort"
@@ -21,6 +22,7 @@ type Vector struct {
 	Tmpl    string            `json:"tmpl"`
 	Order   []string          `json:"order"`
 	Cfg     map[string]string `json:"cfg"`
+	Dflt    map[string]string `json:"dflt"` // the family's default configuration
 	Derived map[string]string `json:"derived"`
 	DI      bool              `json:"di"`
 	Repr    bool              `json:"repr"` // FALSE: the library's IR cannot hold the construct (required outcome: an error)
@@ -74,6 +76,31 @@ func (v *Vector) Text() string {
 	return v.Prelude + body
 }
 
+// Singles returns, for a configuration that differs from the default in two or more slots, the
+// configurations that differ in exactly one of them (used to find the minimal failing case).
+func (v *Vector) Singles() []*Vector {
+	var diff []string
+	for _, s := range v.Order {
+		if v.Cfg[s] != v.Dflt[s] {
+			diff = append(diff, s)
+		}
+	}
+	if len(diff) < 2 || v.Fam == "gv" && false {
+		return nil
+	}
+	var out []*Vector
+	for _, s := range diff {
+		w := *v
+		w.Cfg = map[string]string{}
+		for k, x := range v.Dflt {
+			w.Cfg[k] = x
+		}
+		w.Cfg[s] = v.Cfg[s]
+		out = append(out, &w)
+	}
+	return out
+}
+
 // Label names the configuration by the slots that differ from empty.
 func (v *Vector) Label() string {
 	var parts []string
@@ -98,7 +125,11 @@ func Generate(rep *mbt.Report, families ...string) []Vector {
 	for _, f := range families {
 		q = append(q, fmt.Sprintf("%q", f))
 	}
-	cfg := "SPECIFICATION Spec\nCONSTANTS\n  FamilySet = {" + strings.Join(q, ", ") + "}\nINVARIANT EveryAltCovered\nACTION_CONSTRAINT Emit\nCHECK_DEADLOCK FALSE\n"
+	pairMode := "listed"
+	if os.Getenv("VERIF_MODULES_PAIRS") == "all" {
+		pairMode = "all"
+	}
+	cfg := "SPECIFICATION Spec\nCONSTANTS\n  FamilySet = {" + strings.Join(q, ", ") + "}\n  PairMode = \"" + pairMode + "\"\nINVARIANT EveryAltCovered\nACTION_CONSTRAINT Emit\nCHECK_DEADLOCK FALSE\n"
 	t := mbt.MustTLC(mbt.TLCOpts{Spec: "Modules", Cfg: "ModulesGen.cfg", Workers: 1, Timeout: 15 * time.Minute, Data: map[string][]byte{"ModulesGen.cfg": []byte(cfg)}})
 	defer t.Cleanup()
 	if len(t.Violated) > 0 {
